@@ -66,7 +66,20 @@ fn ext<T: MaybeDynSized<Header = HeaderTagHeader> + ?Sized, const N: usize>(t: &
 #[cfg_attr(kani, kani::proof)]
 #[cfg_attr(kani, kani::unwind(8))]
 pub fn c09_walk_56() {
-    const N: usize = 56;
+    walk::<56>();
+}
+
+// @harness props=C09 tier=thorough panic=allow timeout=1800
+// @encodes as c09_walk_56
+// @bound fully symbolic 72-byte header (up to 7 tags)
+// @assume architecture, tag type, tag flags, console flags, relocation preference hold defined values (the property's precondition)
+#[cfg_attr(kani, kani::proof)]
+#[cfg_attr(kani, kani::unwind(10))]
+pub fn c09_walk_72() {
+    walk::<72>();
+}
+
+fn walk<const N: usize>() {
     let b = header_region::<N>();
     let _ = assume_defined_enums(&b);
     let h = match hload(&b) {
@@ -202,7 +215,20 @@ pub fn c09_get_information_request() {
 #[cfg_attr(kani, kani::proof)]
 #[cfg_attr(kani, kani::unwind(8))]
 pub fn c11_walk_valid_56() {
-    const N: usize = 56;
+    walk_valid::<56>();
+}
+
+// @harness props=C11 tier=thorough panic=forbid timeout=1800
+// @encodes as c11_walk_valid_56
+// @bound 72-byte header whose tag walk tiles the region (<= 7 tags)
+// @assume enumerated fields defined; the header is valid (walk tiles the declared length)
+#[cfg_attr(kani, kani::proof)]
+#[cfg_attr(kani, kani::unwind(10))]
+pub fn c11_walk_valid_72() {
+    walk_valid::<72>();
+}
+
+fn walk_valid<const N: usize>() {
     let b = header_region::<N>();
     let k = assume_defined_enums(&b);
     nd::assume(k.is_some());
@@ -230,7 +256,7 @@ pub fn c11_walk_valid_56() {
     }
     vassert!(it.next().is_none() && it.next().is_none(), "walk ends at the declared length and stays exhausted");
     vassert!(Some(n) == k, "walk length");
-    cover!(n == 5, "five tags");
+    cover!(n == (N - 16) / 8, "as many tags as fit");
     cover!(n == 2 && le32(&b.0, 20) == 12, "padded tag");
 }
 
